@@ -7,7 +7,7 @@ import os
 VERIF = os.path.dirname(os.path.dirname(os.path.abspath(__file__)))
 
 NOTE_COMMON = ("Trusted base: Lean 4.33 kernel (+leanchecker in thorough), Mathlib v4.33 as compiled, axioms propext/Classical.choice/Quot.sound only "
-               "(audited per theorem every run), the py2lean translator (validated by differential execution every run), the correspondence harness "
+               "(audited per theorem every run), the py2lean / py2lean_kern translators (validated by differential execution and bitwise correspondence every run), the correspondence harness "
                "and Lean Float (= C doubles) as execution vehicle. ")
 
 # pid -> (technique, level text, level_note, design_ref)
@@ -80,6 +80,12 @@ TABLE = {
             NOTE_COMMON + "float sqrt exact on perfect squares below 2^52 (assumed).", "DESIGN.md §7 C20"),
 }
 
+GEN = ' GENERATED KERNELS (since build round 3): `_step_1.._step_5`, `Wigner.H`, the coefficient-table formulas of `Wigner.__init__`, `_fill_wigner_d`, `_fill_wigner_D`, `_fill_sYlm` and `_evaluate_Horner` are re-translated from the Python text into Lean on every run (vlib/py2lean_kern.py -> Gen/HKern, Gen/FillKern, Gen/HornerKern: same statements, loop ranges, flat index expressions and operation order, on a flat memory, generic over the arithmetic), executed at Float and compared bit for bit with the numba kernels, and PROVED to compute what the coordinate model computes for every size, arithmetic and initial memory: GenH.genH_sim / genH_refines (generated Wigner.H refines Spec.valW), GenFill.gen_d_entry / gen_D_entry / gen_Y_entry (= Model.dEntry / DEntry / sYlmEntry), GenHorner.gen_evaluate_row (= Model.evaluateHornerK). The theorems about the model therefore hold for the code as written now, and a change to one of these kernels changes the statement that has to be re-proved. '
+
+for _pid in ("C01", "C02", "C03", "C07", "C08", "C09", "C15", "C17"):
+    _t = TABLE[_pid]
+    TABLE[_pid] = (_t[0] + " + kernels re-translated from the Python text every run and proved to simulate the model", _t[1] + GEN, _t[2], _t[3])
+
 NOT_YET = {}
 
 
@@ -111,7 +117,7 @@ def main():
                   "baseline_off_cmd": "cd /repo && /venv/bin/python -m pytest -ra -q -p no:cacheprovider --timeout=900 --continue-on-collection-errors",
                   "source_commits": [], "add_only": True},
         "engines": [{"name": "lean4-proof+correspondence", "path": "lean/ + vlib/", "serves_properties": [c["property_id"] for c in checks],
-                     "kind_free_text": "Lean 4 theorems about (a) definitions re-translated from the Python source each run and (b) hand-written executable models tied to the numba kernels by bit-for-bit correspondence; failing-input search + oracle gap monitor in Python"}],
+                     "kind_free_text": "Lean 4 theorems about (a) definitions re-translated from the Python source each run (integer/index code, guards, and the array kernels of the H recursion, fill and Horner evaluation) and (b) hand-written executable models tied to the numba kernels by bit-for-bit correspondence, with (a) proved to simulate (b); failing-input search + oracle gap monitor in Python"}],
         "checks": checks,
         "not_applicable": na,
         "notes": "One entry point ./check Cxx --tier quick|thorough. Exit 0 = held; 1 = VIOLATION line(s); 2 = infrastructure error. KNOWN_FINDINGS.json lists recorded/fixed defects.",
